@@ -575,7 +575,7 @@ pub fn slice_to_set(v: &[TargetId]) -> (r: HashSet<TargetId>)
 //@contract
     requires
         old(target_actors).wf(*old(tr)),
-        old(tr).inlog.len() == 0,
+        old(tr).inlog.len() == 0, !old(tr).term_seen,
     ensures
         final(target_actors).wf_handles(*final(tr)),
         /*[C10.signal,C07.watch]*/ r is Ok ==> final(tr).term_seen,
@@ -583,6 +583,9 @@ pub fn slice_to_set(v: &[TargetId]) -> (r: HashSet<TargetId>)
 //@pre
         let ghost d0 = tr.delivered;
 //@loop 0
+            invariant_except_break
+                // partial correctness says nothing about a loop that never exits: the signal must end *this* iteration
+                /*[C10.signal]*/ !tr.term_seen,
             invariant
                 target_actors.wf(*tr),
                 /*[C06.relay-watch,C04.relay-forward,C01.relay]*/ tr.delivered == d0 + forwards_of(tr.inlog),
